@@ -59,11 +59,18 @@ def d7_unreachable(F, hs):
             v = flow.switch_on_variant(hs, sw)
             if flow.root_local(hs, {"k": "copy", "pl": {"l": v[0]["l"], "p": []}}) != frame_local and v[0]["l"] != frame_local:
                 continue
-            explicit = set(v[2])
-            other_region = flow.reach_avoiding(hs, [v[3]], [sw])
-            if site.bb in other_region and site.bb not in set().union(*[flow.reach_avoiding(hs, [t], [sw]) for t in v[2].values()] or [set()]):
-                if explicit >= some_set and hs.dominates(cont, sw):
-                    return "D7: arm unreachable — get_topic() is Some exactly for %s, all matched explicitly" % sorted(some_set)
+            if not hs.dominates(cont, sw):
+                continue
+            # the variants whose arm can reach the panic, and only it (not shared with an arm of a variant get_topic() accepts)
+            reach = {vn: flow.reach_avoiding(hs, [t], [sw]) for vn, t in v[2].items()}
+            if hs.term(v[3])["k"] != "unreachable":
+                named = set(v[2])
+                for vn in v[4]:
+                    if vn not in named:
+                        reach[vn] = flow.reach_avoiding(hs, [v[3]], [sw])
+            hitting = {vn for vn, r in reach.items() if site.bb in r}
+            if hitting and not (hitting & some_set):
+                return "D7: arm unreachable — get_topic() is Some exactly for %s; the panicking arm(s) %s are for other kinds" % (sorted(some_set), sorted(hitting))
         return None
     return rule, some_set
 
